@@ -375,17 +375,20 @@ def discharge(obligations, timeout_s=10, jobs=16, keep_dir=None):
                 except Exception:
                     cf = None
                 if cf:
-                    sc = z3.Solver()
-                    sc.set('timeout', 250)
-                    # the wall-clock timeout is not honoured inside some non-linear procedures: a resource limit is
-                    sc.set('rlimit', 400000)
-                    for f in cf:
-                        sc.add(f)
-                    t0 = time.time()
-                    if _nonlinear_free(cf) and sc.check() == z3.unsat:
-                        out[k] = Verdict(ob, 'unsat', 'z3-5.1/qf-core(in-process)', time.time() - t0)
-                        ob.proved = True
-                        continue
+                    try:
+                        sc = z3.Solver()
+                        sc.set('timeout', 250)
+                        # the wall-clock timeout is not honoured inside some non-linear procedures: a resource limit is
+                        sc.set('rlimit', 400000)
+                        for f in cf:
+                            sc.add(f)
+                        t0 = time.time()
+                        if _nonlinear_free(cf) and sc.check() == z3.unsat:
+                            out[k] = Verdict(ob, 'unsat', 'z3-5.1/qf-core(in-process)', time.time() - t0)
+                            ob.proved = True
+                            continue
+                    except z3.Z3Exception:
+                        pass        # the shortcut decided nothing: the regular pipeline follows
                 s = build_solver(ob)
                 path = os.path.join(tmp, 'q%04d.smt2' % k)
                 with open(path, 'w') as fh:
